@@ -309,6 +309,8 @@ def thread_action(act):
         if kind == 'start':
             _, api, name, tid, blocked = act[:5]
             VTABLE.start(api, name, tid, blocked, len(act) > 5 and act[5])
+        elif kind == 'touch':
+            VTABLE.touch(act[1])
         else:
             VTABLE.release(act[1])
         return
@@ -1012,6 +1014,16 @@ class VTable:
             return
         self._end(tid)
         emit('th', 'released', tid, rec['ident'])
+
+    def touch(self, tid):
+        """A running low-level thread calls threading.current_thread() (any
+        logging call does): from now on threading knows it as a _DummyThread
+        with a name of its own - same thread, same ident, another name."""
+        rec = self.recs.get(tid)
+        if rec is None or rec['ended'] or rec['api'] == 'threading':
+            return
+        self.known[rec['ident']] = VThread(rec['ident'], 'Dummy-registered-%s' % tid, dummy=True)
+        emit('th', 'touched', tid, rec['ident'])
 
     # ---- what the runner sees
     def current_frames(self):
